@@ -31,7 +31,7 @@ def decode(data, plugins):
     if js == "":
         e = err.getvalue()
         return dict(kind="badph" if "Private Header" in e else "baduh" if "User Header" in e else "filtered")
-    return dict(kind="ok", eid=eid, sha=__import__("hashlib").sha1(js.encode()).hexdigest())
+    return dict(kind="ok", eid=eid, sha=__import__("hashlib").sha1(js.encode()).hexdigest(), text=js)
 
 
 def main():
@@ -39,6 +39,13 @@ def main():
         req = json.loads(line)
         if req["op"] == "decode":
             ans = decode(bytes.fromhex(req["hex"]), req.get("plugins", True))
+        elif req["op"] == "decode_fx":
+            sys.path.insert(0, os.path.dirname(os.path.abspath(__file__)))
+            import fixtures as fxm
+            from pel.peltool import peltool
+            peltool.prettyPrint = lambda s, desiredSpace=34: s
+            with fxm.Fixtures([tuple(f) for f in req["fixtures"]]):
+                ans = decode(bytes.fromhex(req["hex"]), req.get("plugins", True))
         elif req["op"] == "flags":
             ans = dict(optimize=sys.flags.optimize, debug=__debug__)
         else:
